@@ -406,7 +406,7 @@ type bounds struct {
 	Why     map[string]string // first reason an element is required
 	// AnyShapes: type URL shapes of the Any payloads the walk demanded (coverage counter only).
 	AnyShapes map[string]bool
-	core    [3]int            // sizes of the walk result proper (before exclude-only widening)
+	core      [3]int // sizes of the walk result proper (before exclude-only widening)
 }
 
 type expectation struct {
@@ -509,6 +509,11 @@ func (w *walker) opts(us []optUse) {
 		}
 		for _, p := range u.Any {
 			if e := w.m.El[p]; e != nil && e.Kind == kMsg {
+				if !w.effExcl(p) {
+					for _, sh := range u.AnyShape[p] {
+						w.shapes[sh] = true
+					}
+				}
 				w.add(p, false, "any-payload")
 			}
 		}
